@@ -3,8 +3,7 @@
    - byte arithmetic wraps modulo 256 (r[i]-lo, lo+byte(diff));
    - an index past the end of a mults/bounds/data slice, a division by a zero multiplier and a slice
      expression past the capacity (str[:n]) or past the length (str[n:]) are the explicit outcome [Panic];
-   - Encode has no "n > len(str)" guard (Decode has one), so it may slice into the hidden capacity [hid] of
-     its argument or past it.
+   - Encode had no "n > len(str)" guard until commit 014a463e8; it now has the same guard as Decode.
    Go's int arithmetic is modelled in N without wrap (on well-formed tables every intermediate value is below
    256^4; the translator rejects negative multipliers). *)
 From Coq Require Import List NArith Bool Arith.
@@ -131,32 +130,12 @@ Fixpoint dec_try (G : list (list entry)) (str : list N) (k L : nat) : res (nat *
 Definition decode_step (rm : rangemap) (str : list N) := dec_try (in_groups rm) str (length (inE rm)) 1.
 Definition decode (rm : rangemap) (str : list N) : res (list N) := loop (length str) (decode_step rm) str.
 
-(* str[:L] on a slice whose capacity holds the extra bytes [hid] after its length *)
-Definition slice_to (str hid : list N) (L : nat) : option (list N) :=
-  if (L <=? length str + length hid)%nat then Some (firstn L (str ++ hid)) else None.
-
-(* Encode: for L := 1; L <= len(inputEntries); L++ { EncodeRune(str[:L]) }  -- no length guard *)
-Fixpoint enc_try (G' : list (list entry)) (str hid : list N) (k L : nat) : res (nat * list N) :=
-  match k with
-  | O => Fail
-  | S k' =>
-      match slice_to str hid L with
-      | None => Panic
-      | Some p =>
-          match rune_lookup G' p with
-          | Ok r => Ok (L, r)
-          | Fail => enc_try G' str hid k' (S L)
-          | Panic => Panic
-          end
-      end
-  end.
-
-(* ... followed by str = str[L:], which panics when L > len(str) *)
+(* Encode: for L := 1; L <= len(inputEntries); L++ { if L > len(str) {return nil,false}; EncodeRune(str[:L]) }
+   -- since commit 014a463e8 the scan has the same length guard as Decode, so str[:L] never reaches past the length
+   (the hidden capacity [hid] of the argument slice is therefore irrelevant; the parameter is kept for the cases) and
+   str = str[L:] is always in range.  The scan is dec_try over the flipped output entries. *)
 Definition encode_step (rm : rangemap) (hid str : list N) : res (nat * list N) :=
-  match enc_try (out_groups rm) str hid (length (inE rm)) 1 with
-  | Ok (L, r) => if (length str <? L)%nat then Panic else Ok (L, r)
-  | x => x
-  end.
+  dec_try (out_groups rm) str (length (inE rm)) 1.
 Definition encode (rm : rangemap) (str hid : list N) : res (list N) := loop (length str) (encode_step rm hid) str.
 
 (* size result of unicode/utf8.DecodeRune (the rune itself is not used by EncodeReplaceUnknown) *)
